@@ -15,6 +15,10 @@ Theorem C11_all_frozen : forall ci, In ci schema -> c_frozen ci = true /\ c_eq c
 Proof. exact all_frozen. Qed.
 
 (* 2. every default value and class-level node of the schema is itself free of lists *)
+(* every field of every class takes part in the generated == and hash (no compare=False, no hash override), regenerated on every run *)
+Theorem C11_every_field_compared : odd_fields = [].
+Proof. reflexivity. Qed.
+
 Theorem C11_defaults_immutable : forall ci f d, In ci schema -> In f (c_fields ci) -> f_default f = Some d -> no_list d = true.
 Proof. exact defaults_immutable. Qed.
 
@@ -52,6 +56,7 @@ Example C11_example :
 Proof. vm_compute. repeat split; discriminate. Qed.
 
 Print Assumptions C11_all_frozen.
+Print Assumptions C11_every_field_compared.
 Print Assumptions C11_defaults_immutable.
 Print Assumptions C11_eq_structural.
 Print Assumptions C11_eq_equivalence.
